@@ -1052,6 +1052,17 @@ class Traverse(DeclContract):
                 out.append(('case-node-scheduled|C15,C16', visited_has(it, ctx.var('visited'), node)))
             return out
 
-        k = LoopSpec(text='input_mark.cases', heap_havoc=outer._havoc_locs, inv=outer._base_inv, body_post=case_body,
+        def cases_inv(ctx):
+            # C15 / C09 "no declared parameter is dropped, re-targeted or merged", for the cases of one switch: the case edges
+            # added so far still carry their own labels (a later case on the same node must not take the edge over)
+            st = ctx.st
+            g = graph_view(ctx.now(), ctx.a.self)
+            j = z3.Int('cj')
+            sw = T(ctx.var('switch_node_id'), st)
+            lab_j, node_j = PyV.t0(ctx.seq.at(j)), NODE_ID(PyV.t1(ctx.seq.at(j)))
+            return outer._base_inv(ctx) + [('earlier-cases-still-have-their-own-labelled-edge|C15,C09', FA([j], z3.Implies(
+                z3.And(j >= 0, j < ctx.i), z3.And(g.edge(node_j, sw), g.case(node_j, sw) == lab_j)), patterns=[ctx.seq.at(j)]))]
+
+        k = LoopSpec(text='input_mark.cases', heap_havoc=outer._havoc_locs, inv=cases_inv, body_post=case_body,
                      ghost_init=outer._remember_visited('input_mark.cases'))
         return [w, m, c, k]
